@@ -270,6 +270,28 @@ func c18Compromise(w *mon.W, id string, tid int, t1, t2 codon.Table, s1, s2 plai
 			letters = append(letters, l)
 		}
 	}
+	// an amino acid the cut-off has left without any codon cannot be optimised for: asking for it must
+	// not produce a gene (any codon chosen for it is rarer than the cut-off in one of the organisms)
+	var zeroed []string
+	for _, l := range sc.letters() {
+		if sc.total(l) == 0 {
+			zeroed = append(zeroed, l)
+		}
+	}
+	if len(zeroed) > 0 && len(letters) > 0 {
+		z := zeroed[r.Intn(len(zeroed))]
+		prot := letters[r.Intn(len(letters))] + z + letters[r.Intn(len(letters))]
+		var dna string
+		var oerr error
+		w.Add("optimize_calls_with_an_amino_acid_the_cutoff_removed", 1)
+		if p := mon.Try(func() { dna, oerr = codon.Optimize(prot, ct) }); p != "" {
+			w.Violation(id, fmt.Sprintf("Optimize(%q) on the compromise table (cut-off %g), where %s has no codon left: %s", prot, c, z, p), rep)
+			return
+		} else if oerr == nil {
+			w.Violation(id, fmt.Sprintf("a gene optimised with the compromise table (cut-off %g) encodes %s although every codon of %s is rarer than the cut-off in one of the inputs: Optimize(%q) = %q", c, z, z, prot, dna), rep)
+			return
+		}
+	}
 	if len(letters) == 0 {
 		return
 	}
